@@ -57,9 +57,11 @@ def point_sets(rng, d, tier):
     face[:, 0] = rng.random(len(face))
     sets.append(('face', np.clip(face, 0.0, np.nextafter(1.0, 0))))
     sets.append(('corner', np.clip(np.abs(rng.normal(0, 0.05, (60 + 10 * d, d))), 0.0, np.nextafter(1.0, 0))))
+    # the smallest point sets an ellipsoid can be built from (d + 1 and d + 2 points)
+    small = [('simplex', rng.random((d + 1, d))), ('simplex+1', rng.random((d + 2, d)))]
     if tier == 'quick':
-        return sets[:4] if d > 3 else sets
-    return sets
+        return (sets[:4] if d > 3 else sets) + small
+    return sets + small
 
 
 def check_ellipsoid(e, pts, enlarge, label, fails, cases_q, rng, with_construction=True):
